@@ -95,6 +95,7 @@ def trees(depth):
             for f in ("i", "o"):
                 for dims in ((), (2,)):
                     cur.append((("s", f, "s", sub, dims),))
+            cur.append((("s", "i", "s", sub, (2, 3)),))          # a two-dimensional array of sub-interfaces
             cur.append((("p",) + (PORTS[0][0], "p", PORTS[0][1], PORTS[0][2]), ("s", "i", "s", sub, (2,))))
             cur.append((("s", "o", "s", sub, ()), ("t", "i", "s", sub, ())))
         out += cur
